@@ -4,9 +4,17 @@
     the lines after the keyword line and return the updated object and what is left. *)
 From Coq Require Import Ascii String List Bool Arith ZArith NArith Lia.
 From PTBase Require Import Exn PyStr PyNum PyVal Fmt FixedFormat.
+From Gen Require Import GenSections.
 From P Require Import Comb Obj.
 Import ListNotations.
 Open Scope string_scope.
+
+(** values per line of a reader / writer method: the constant regenerated from its source
+    (0 when the method does not use exactly one such constant: nothing is then proved) *)
+Fixpoint clookup (k : string) (l : list (string * list Z)) : option (list Z) :=
+  match l with [] => None | (k', v) :: r => if String.eqb k k' then Some v else clookup k r end.
+Definition chunk_of (m : string) : nat :=
+  match clookup m chunk_consts with Some [k] => Z.to_nat k | _ => O end.
 
 Definition kw (s : string) : str := s2l s +++ [nl].
 (** replace-on-duplicate insertion into a list kept in REVERSE order of insertion
@@ -16,11 +24,15 @@ Definition add_named {X} (same : X -> X -> bool) (acc : list X) (x : X) : list X
 (** [v < 0.0] *)
 Definition v_lt0 (v : value) : res bool :=
   match v with XInt a => Ok (a <? 0)%Z | XReal ng m _ => Ok (ng && negb (m =? 0)%Z) | _ => Raise TypeError end.
-(** [int(ceil(v / 2.**sh))] (sh = 2: chunks of 4, sh = 3: chunks of 8), as a loop count *)
-Definition ceil_div_pow2 (v : value) (sh : Z) : res nat :=
+(** [int(ceil(v / float(k)))] as a loop count; for a float [v] the division is exact when
+    [k] is a power of two (the only case modelled) *)
+Definition ceil_div (v : value) (k : nat) : res nat :=
+  let kz := Z.of_nat k in
   match v with
-  | XInt a => Ok (nlines_z (2 ^ sh) a)
+  | XInt a => Ok (nlines_z kz a)
   | XReal ng m e =>
+      let sh := Z.log2 kz in
+      if negb (kz =? 2 ^ sh)%Z then Raise TypeError else
       let e' := (e - sh)%Z in
       if ng then Ok O
       else Ok (Z.to_nat (if (0 <=? e')%Z then m * 2 ^ e' else (m + 2 ^ (- e') - 1) / 2 ^ (- e'))%Z)
@@ -155,10 +167,14 @@ Definition param_spec (d : t2d) : string := if autough2 d then "param1_autough2"
 Definition write_timesteps (p : params) : res file :=
   do neg <- v_lt0 (dgetv (p_dict p) "const_timestep");
   if neg then do z <- v_int (dgetv (p_dict p) "const_timestep");
-              write_chunks (sp "timestep") 8 (Z.to_nat (- z)) (p_timestep p)
+              write_chunks (sp "timestep") (chunk_of "write_timesteps") (Z.to_nat (- z)) (p_timestep p)
   else Ok [].
 Definition write_dincons (l : list value) : res file :=
-  match l with [] => Ok [[nl]] | _ => write_chunks (sp "default_incons") 4 ((length l + 3) / 4) l end.
+  match l with
+  | [] => Ok [[nl]]
+  | _ => let k := chunk_of "write_parameters" in
+         write_chunks (sp "default_incons") k (nlines_z (Z.of_nat k) (Z.of_nat (length l))) l
+  end.
 Definition write_param (d : t2d) : res file :=
   let p := param d in
   do pbw <- match dgetv (p_dict p) "print_block" with
@@ -195,7 +211,12 @@ Definition read_param (keywords : list str) (d : t2d) (ls : file) : res (t2d * o
   do opts <- mapM digit_of (replace1 " "%char ["0"%char] (ljust 24 (rstrip ostr)));
   let (l2, r2) := readline r1 in
   let d2 := dict_update d1 (nm "param2") (pline T "param2" l2) in
-  let d2' := match dgetv d2 "print_block" with XStr s => if blank s then dset d2 "print_block" XNone else d2 | _ => d2 end in
+  let d2' := match dgetv d2 "print_block" with
+             | XStr s => if blank s then dset d2 "print_block" XNone
+                         else if read_fixes_print_block && (length s =? 5)%nat then
+                           match fix_blockname s with Ok n => dset d2 "print_block" (XStr n) | Raise _ => d2 end
+                         else d2
+             | _ => d2 end in
   do tr <- read_timesteps d2' r2;
   let (l3, r4) := readline (snd tr) in
   let d3 := dict_update d2' (nm "param3") (pline T "param3" l3) in
@@ -263,15 +284,15 @@ Definition write_times (d : t2d) : res file :=
   | None => Ok []
   | Some (dt, tl) =>
       do l1 <- wline T "output_times1" (dict_vals dt (nm "output_times1"));
-      do n <- ceil_div_pow2 (dgetv dt "num_times_specified") 3;
-      do ch <- write_chunks (sp "output_times2") 8 n tl;
+      do n <- ceil_div (dgetv dt "num_times_specified") (chunk_of "write_times");
+      do ch <- write_chunks (sp "output_times2") (chunk_of "write_times") n tl;
       Ok (kw "TIMES" :: l1 :: ch)
   end.
 Definition read_times (d : t2d) (ls : file) : res (t2d * file) :=
   let (l1, r1) := readline ls in
   let dt0 := match otimes d with Some (x, _) => x | None => [] end in
   let dt := dict_update dt0 (nm "output_times1") (pline T "output_times1" l1) in
-  do n <- match dget dt "num_times_specified" with Some v => ceil_div_pow2 v 3 | None => Raise KeyError end;
+  do n <- match dget dt "num_times_specified" with Some v => ceil_div v (chunk_of "read_times") | None => Raise KeyError end;
   let (tl, r2) := read_chunks (sp "output_times2") n r1 in
   Ok (set_otimes d (Some (dt, tl)), r2).
 
@@ -289,11 +310,12 @@ Definition write_gen (g : gen) : res file :=
   do l1 <- wline T "generator" (dict_vals (gen_dict g) (nm "generator"));
   do nt <- gen_ntimes (g_ltab g) (g_type g);
   if (1 <? nt)%Z then
-    let n := nlines_z 4 nt in
+    let c := chunk_of "write_generator" in
+    let n := nlines_z (Z.of_nat c) nt in
     let k := Z.to_nat nt in
-    do t <- write_chunks (sp "generation_times") 4 n (firstn k (g_time g));
-    do r <- write_chunks (sp "generation_rates") 4 n (firstn k (g_rate g));
-    do e <- match g_enth g with [] => Ok [] | en => write_chunks (sp "generation_enthalpy") 4 n (firstn k en) end;
+    do t <- write_chunks (sp "generation_times") c n (firstn k (g_time g));
+    do r <- write_chunks (sp "generation_rates") c n (firstn k (g_rate g));
+    do e <- match g_enth g with [] => Ok [] | en => write_chunks (sp "generation_enthalpy") c n (firstn k en) end;
     Ok (l1 :: t +++ r +++ e)
   else Ok [l1].
 Definition write_gens (d : t2d) : res file :=
@@ -311,7 +333,7 @@ Definition read_gen (acc : list gen) (line : str) (r : file) : res (list gen * f
   do nt <- gen_ntimes ltab gtype;
   let mk t ra en := mk_gen block name (vnth v 2) (vnth v 3) (vnth v 4) ltab gtype itab (vnth v 9) (vnth v 10) (vnth v 11) (vnth v 12) t ra en in
   if (1 <? nt)%Z then
-    let n := nlines_z 4 nt in
+    let n := nlines_z (Z.of_nat (chunk_of "read_generator")) nt in
     let (t, r1) := read_chunks (sp "generation_times") n r in
     let (ra, r2) := read_chunks (sp "generation_rates") n r1 in
     if blank itab then Ok (mk t ra [] :: acc, r2)
